@@ -137,6 +137,22 @@ fn bits_of<T: Elem>(xs: &[T]) -> Vec<u128> {
     xs.iter().map(|x| x.bits()).collect()
 }
 
+/// A body-format label that is not BEVE (1): the defined other formats, the first unknown ones, codes that equal 1 after
+/// truncation or reduction (modulo 32 / 64 / 256, high byte set, bit 0 set), and any other 16-bit value.
+fn wrong_label(r: &mut Rng) -> u16 {
+    match r.below(4) {
+        0 => *r.pick(&[0u16, 2, 3, 4, 5, 9, 77]),
+        1 => *r.pick(&[33u16, 65, 129, 257, 513, 1025, 4097, 0x8001, 0xFF01, 0x0101, 0x0100, 4096, 0xFFFF, 0xFFFE]),
+        2 => (r.below(2047) as u16 + 1) * 32 + 1,
+        _ => loop {
+            let v = r.next_u64() as u16;
+            if v != 1 {
+                break v;
+            }
+        },
+    }
+}
+
 fn pick_len(r: &mut Rng, miri: bool, case: u64) -> usize {
     if case % 16 == 0 {
         return 0;
@@ -146,7 +162,8 @@ fn pick_len(r: &mut Rng, miri: bool, case: u64) -> usize {
         1 => 1,
         2..=6 => r.usize_below(if miri { 12 } else { 70 }),
         7 => r.usize_below(if miri { 40 } else { 4097 }),
-        8 => *r.pick(&[63usize, 64, 65, 255, 256, 257]) % if miri { 70 } else { 100_000 },
+        // around the element counts where the BEVE size prefix changes width (1 -> 2 -> 4 bytes) and around byte-sized counts
+        8 => *r.pick(&[63usize, 64, 65, 255, 256, 257, 16_383, 16_384, 16_385]) % if miri { 70 } else { 100_000 },
         _ => {
             if miri {
                 r.usize_below(20)
@@ -258,7 +275,7 @@ fn check_type<T: Elem, U: Elem>(rep: &mut Report, r: &mut Rng, case: u64, miri: 
     }
     {
         let mut wrong = bulk.clone();
-        wrong.header.body_format = *r.pick(&[0u16, 2, 3, 77]);
+        wrong.header.body_format = wrong_label(r);
         match catching(|| wrong.decode_typed_slice::<T>()) {
             Ok(Err(_)) => rep.count("wrong_format_rejected", 1),
             Ok(Ok(_)) => rep.violation("C08:wrong-format-accepted", format!("decode_typed_slice accepted body_format {}", wrong.header.body_format), desc.clone()),
@@ -427,7 +444,7 @@ fn check_type<T: Elem, U: Elem>(rep: &mut Report, r: &mut Rng, case: u64, miri: 
     for m in [&bulk, &amsg] {
         let mut m2 = (*m).clone();
         m2.header.query_format = QueryFormat::JsonPointer as u16;
-        m2.header.body_format = *r.pick(&[0u16, 2, 3, 9]);
+        m2.header.body_format = wrong_label(r);
         let w = m2.to_vec();
         *seen.lock().unwrap() = None;
         let res = catching(|| h.handle_view(&MessageView::from_slice(&w).unwrap(), &CallContext::detached("/r")));
@@ -438,6 +455,32 @@ fn check_type<T: Elem, U: Elem>(rep: &mut Report, r: &mut Rng, case: u64, miri: 
             rep.violation("C08:ref-route:wrong-format-accepted", format!("{} x{n}: with_typed_slice_ref route accepted a body tagged with format code {} (handler invoked: {invoked})", T::NAME, m2.header.body_format), desc.clone());
         } else {
             rep.count("wrong_format_rejected", 1);
+        }
+    }
+    // wrong body-format code on the PLAIN (owning) route: rejected on both handler entry points, handler not invoked
+    {
+        let hit = Arc::new(std::sync::atomic::AtomicBool::new(false));
+        let h2 = hit.clone();
+        let prouter = Router::new().with_typed_slice("/p", move |ys: Vec<T>| -> Result<Vec<T>, (ErrorCode, String)> {
+            h2.store(true, std::sync::atomic::Ordering::SeqCst);
+            Ok(ys.into_iter().rev().collect())
+        });
+        let ph = prouter.get("/p").unwrap();
+        for _ in 0..2 {
+            let mut m2 = bulk.clone();
+            m2.header.query_format = QueryFormat::JsonPointer as u16;
+            m2.header.body_format = wrong_label(r);
+            let w = m2.to_vec();
+            hit.store(false, std::sync::atomic::Ordering::SeqCst);
+            let res = catching(|| ph.handle_view(&MessageView::from_slice(&w).unwrap(), &CallContext::detached("/p")));
+            let res2 = catching(|| ph.handle(&m2));
+            let invoked = hit.load(std::sync::atomic::Ordering::SeqCst);
+            let rejected = |r: &Result<Result<Message, repe::RepeError>, String>| matches!(r, Ok(Err(_))) || matches!(r, Ok(Ok(x)) if x.header.ec != 0);
+            if invoked || !rejected(&res) || !rejected(&res2) {
+                rep.violation("C08:plain-route:wrong-format-accepted", format!("{} x{n}: with_typed_slice route accepted a body tagged with format code {} (handler invoked: {invoked})", T::NAME, m2.header.body_format), desc.clone());
+            } else {
+                rep.count("wrong_format_rejected_plain_route", 1);
+            }
         }
     }
     // wrong element type sent to the borrowing route: rejected (empty arrays of the wrong type included)
@@ -771,7 +814,7 @@ mod net {
             let f32s = Message::builder().body_typed_slice(&[1.0f32, 2.0, 3.0, 4.0]).build().body;
             let text = b"D 0123456789abcdef0123456789abcdef".to_vec();
             let mut cases: Vec<(u16, Vec<u8>, bool, &str)> = vec![(1, good.clone(), true, "beve-f64 (control)")];
-            for label in [0u16, 2, 3, 4, 257, 4096, 0xffff] {
+            for label in [0u16, 2, 3, 4, 33, 257, 4096, 4097, 0x8001, 0xffff] {
                 cases.push((label, good.clone(), false, "f64 typed array under a non-BEVE label"));
             }
             cases.push((0, text.clone(), false, "ASCII text under RawBinary"));
